@@ -47,6 +47,26 @@ package core
 //@   ensures rule [C33]: label.PackageName != dep.Label.PackageName && !(inExp(state.experimentalLabels, dep.Label) && \
 //@      !inExp(state.experimentalLabels, label)) ==> result == (visibleTo(dep.Visibility, label.Parent()) || \
 //@      dep.Label.PackageName == label.Parent().PackageName || inExp(state.experimentalLabels, label))
+//@   ensures whole [C33]: result == canSeeS(label, dep.Label, dep.Visibility, state.experimentalLabels)
+
+// The whole rule as one predicate, and the per-dependency check of CheckDependencyVisibility.
+//@ spec canSeeS(l BuildLabel, dl BuildLabel, vis []BuildLabel, exps []BuildLabel) bool = l.PackageName == dl.PackageName || \
+//@      (!(inExp(exps, dl) && !inExp(exps, l)) && (visibleTo(vis, l.Parent()) || dl.PackageName == l.Parent().PackageName || inExp(exps, l)))
+//@ spec depOK(state *BuildState, target *BuildTarget, dep *BuildTarget) bool = \
+//@      canSeeS(target.Label, dep.Label, dep.Visibility, state.experimentalLabels) && \
+//@      !(dep.TestOnly && target.Test == nil && !target.TestOnly && !inExp(state.experimentalLabels, target.Label))
+//
+//@ assume func (BuildGraph).TargetOrDie
+//@   pure
+//@ axiom targetordie_nonnil: forall g *BuildGraph, l BuildLabel :: g.TargetOrDie(l) != nil
+//
+//@ func (BuildTarget).CheckDependencyVisibility
+//@   requires target != nil && state != nil && state.Graph != nil
+//@   requires forall i int :: 0 <= i && i < len(target.dependencies) ==> target.dependencies[i].declared != nil
+//@   invariant "range target.dependencies" ok: forall j int :: 0 <= j && j < idx ==> \
+//@      depOK(state, target, state.Graph.TargetOrDie(deref(target.dependencies[j].declared)))
+//@   ensures exact [C33]: (result == nil) == (forall i int :: 0 <= i && i < len(target.dependencies) ==> \
+//@      depOK(state, target, state.Graph.TargetOrDie(deref(target.dependencies[i].declared))))
 
 // ---------------------------------------------------------------------------------------------
 // Label filters (C36)
